@@ -67,9 +67,19 @@ type FuncSpec struct {
 	Tolerate   *Clause
 	Ghost      []*Clause
 	GhostAt    []GhostAt
+	Asserts    []AssertAt
+	Owned      []string // locals that must only ever hold slices allocated by this activation
 	File       string
 	Line       int
 	Used       bool
+}
+
+// AssertAt: assert LABEL: EXPR before|after CALLEE[#k] - an obligation at a call site
+type AssertAt struct {
+	Ord    int
+	After  bool
+	Clause *Clause
+	Callee string
 }
 
 type GhostAt struct {
@@ -128,6 +138,7 @@ var labelRe = regexp.MustCompile(`^([A-Za-z_][A-Za-z0-9_\-]*):\s+(.*)$`)
 var typeinvRe = regexp.MustCompile(`^\(\s*(\w+)\s+\*(\w+)\s*\)\s*=\s*(.*)$`)
 var guardRe = regexp.MustCompile(`^(?:(\w+)\.)?(\w+)\s+by\s+(?:(\w+)\.)?(\w+)$`)
 var ghostAtRe = regexp.MustCompile(`^(\w+)\s*=\s*(.*?)\s+after\s+([\w.$]+(?:#\d+)?)$`)
+var assertAtRe = regexp.MustCompile(`^(.*?)\s+(before|after)\s+([\w.$]+(?:#\d+)?)$`)
 var funcHdrRe = regexp.MustCompile(`^func\s+(?:\(\s*(\w+)?\s*(\*?)\s*([\w]+)\s*\)\s*)?([\w$]+)\s*$`)
 
 type rawLine struct {
@@ -376,6 +387,32 @@ func (sp *Specs) LoadSpecFile(path, pkgName string) {
 		case "mutual":
 			if cur != nil {
 				cur.Mutual = true
+			}
+		case "owned":
+			if cur == nil {
+				errf(l, "owned outside func block")
+				continue
+			}
+			for _, part := range splitTop(rest) {
+				cur.Owned = append(cur.Owned, strings.TrimSpace(part))
+			}
+		case "assert":
+			if cur == nil {
+				errf(l, "assert outside func block")
+				continue
+			}
+			m := assertAtRe.FindStringSubmatch(rest)
+			if m == nil {
+				errf(l, "bad assert clause (want: assert LABEL: EXPR before|after CALLEE[#k])")
+				continue
+			}
+			if c := mkClause(l, m[1]); c != nil {
+				aa := AssertAt{Clause: c, Callee: m[3], Ord: 1, After: m[2] == "after"}
+				if i := strings.Index(aa.Callee, "#"); i >= 0 {
+					fmt.Sscanf(aa.Callee[i+1:], "%d", &aa.Ord)
+					aa.Callee = aa.Callee[:i]
+				}
+				cur.Asserts = append(cur.Asserts, aa)
 			}
 		case "errprop":
 			if cur == nil {
